@@ -327,6 +327,8 @@ func c08Matrix() ([]c08Prov, []c08Xform) {
 var c08Operands = [][]byte{
 	{0x05}, {0x85}, {0x05, 0x00}, {0x05, 0x80}, {0x00}, {0x80}, {0x34, 0x12}, {0xff, 0xff, 0xff, 0x7f}, {0x01, 0x00, 0x00, 0x00},
 	{0x01, 0x02, 0x03, 0x04, 0x05, 0x06, 0x07, 0x08}, {0x01, 0x00, 0x00, 0x00, 0x00, 0x00, 0x00, 0x00, 0x00}, {0xde, 0xad, 0xbe, 0xef, 0x00},
+	// beyond the pre-Genesis element size (implementations switch strategy on size classes), positive and negative
+	append(bytes.Repeat([]byte{0x37}, 520), 0x11), append(bytes.Repeat([]byte{0x42}, 599), 0x85), append(bytes.Repeat([]byte{0x00}, 8), 0x89),
 }
 
 func init() {
